@@ -38,14 +38,15 @@ Record deviations := {
   d90_dropped_dm_started : bool;  (* D90 new subsystem: a function dropped while its manager is not started yet is started anyway *)
   d91_pending_subscribes : bool;  (* D91 legacy: a trigger stopped before its task ran still runs its prologue, then is cancelled without unsubscribing *)
   d21_handler_stays : bool;       (* D21 a service shared by several live functions keeps the handler registered last, even when that function is removed *)
-  d92_cell_import_not_started : bool  (* D92 a module imported inside a Jupyter cell is loaded with auto_start off and never started *)
+  d92_cell_import_not_started : bool; (* D92 a module imported inside a Jupyter cell is loaded with auto_start off and never started *)
+  d93_fault_pins_function : bool  (* D93 new subsystem: a startup dispatch that raises during an inline start pins the function object: dropping it stops nothing *)
 }.
 Definition cfg_off : deviations :=
   {| d16_notify_del_return := false; d90_dropped_dm_started := false; d91_pending_subscribes := false; d21_handler_stays := false;
-     d92_cell_import_not_started := false |}.
+     d92_cell_import_not_started := false; d93_fault_pins_function := false |}.
 Definition all_off (c : deviations) : Prop :=
   d16_notify_del_return c = false /\ d90_dropped_dm_started c = false /\ d91_pending_subscribes c = false /\
-  d21_handler_stays c = false /\ d92_cell_import_not_started c = false.
+  d21_handler_stays c = false /\ d92_cell_import_not_started c = false /\ d93_fault_pins_function c = false.
 
 (* ---------------------------------------------------------------------------------------------- *)
 (* small list helpers                                                                              *)
@@ -198,7 +199,8 @@ Definition dec_stop (cfg : deviations) (u : unit_) (L : ledger) : ledger * list 
 Record func := {
   f_gen : N; f_ctx : N; f_new : bool; f_units : list unit_;
   f_svc : option N;      (* @service: the service name *)
-  f_pos : nat            (* new subsystem: how many trigger decorators are started before the @service decorator *)
+  f_pos : nat;           (* new subsystem: how many trigger decorators are started before the @service decorator *)
+  f_inline : bool        (* defined while its context had auto_start on: the manager is started inside ast_functiondef *)
 }.
 
 Record world := {
@@ -397,7 +399,7 @@ Definition new_protos (s : fspec) : list proto :=
 Definition define (cfg : deviations) (c : N) (newsys : bool) (s : fspec) (W : world) : world :=
   let gen := w_next W in
   let units := number_units (s_crash s) gen (gen + 1) (if newsys then new_protos s else legacy_protos s) in
-  let f := {| f_gen := gen; f_ctx := c; f_new := newsys; f_units := units; f_svc := s_svc s; f_pos := s_pos s |} in
+  let f := {| f_gen := gen; f_ctx := c; f_new := newsys; f_units := units; f_svc := s_svc s; f_pos := s_pos s; f_inline := memn c (w_auto W) |} in
   let nxt := gen + 1 + N.of_nat (length units) in
   (* the function object exists in any case *)
   let Wf := {| w_led := w_led W; w_funcs := w_funcs W ++ [f]; w_active := w_active W; w_delayed := w_delayed W;
@@ -412,6 +414,10 @@ Definition define (cfg : deviations) (c : N) (newsys : bool) (s : fspec) (W : wo
     let W1 := set_delayed (set_active Ws (w_active Ws ++ [gen])) (w_delayed Ws ++ [gen]) in
     if memn c (w_auto W) then ctx_start_func cfg W1 f else W1.
 
+(* D93: the startup dispatch of an eagerly started _cycle task raised while ast_functiondef was still on the stack
+   (inline start): the exception kept by the finished task pins those frames and with them the function variable *)
+Definition pinned (f : func) : bool := f_inline f && existsb (fun u => u_startup u && u_crash u) (f_units f).
+
 (* -- "the last reference to the function object was dropped" (input event) ------------------------ *)
 Definition dropped (cfg : deviations) (g : N) (W : world) : world :=
   match find_func W g with
@@ -421,6 +427,7 @@ Definition dropped (cfg : deviations) (g : N) (W : world) : world :=
       (* weakref.finalize callback: `if self.status is RUNNING: create_task(self.stop())` *)
       if memn g (w_active W) then
         if memn g (w_delayed W) then (if d90_dropped_dm_started cfg then W else dm_discard W f)
+        else if d93_fault_pins_function cfg && pinned f then W   (* D93: the function object never dies *)
         else dm_stop cfg W f
       else W
     else leg_func_stop cfg W f       (* EvalFuncVar.__del__ -> EvalFunc.trigger_stop *)
